@@ -19,7 +19,8 @@ RULE = ("exhaustive 7-tuples over the digit-pattern alphabet {0,1,5,10,100,1005}
         "quarters/weeks alone, plus seeded random large values; constructor called with keywords, positionally (documented order) "
         "and with each dialect= argument; each rendered under the six dialect contexts, "
         "bare and embedded in a SELECT; a case is non-trivial when at least two components are non-zero or the value "
-        "is negative/quarter/week; distinct = distinct (argument tuple)")
+        "is negative/quarter/week; distinct = distinct (argument tuple)"
+        " also: constructor forms (positional, dialect=), embedding in every statement position of all six dialect classes, magnitudes beyond 2**53 and 64 bits, the empty interval everywhere. (DESIGN.md 6a)")
 ASSUMPTIONS = [
     "unit designator L_S is read as the integer fields of 'Y-M-D h:m:s.us' from L to S (the property's stated reading)",
     "expected quoting form per dialect: MySQL/Oracle INTERVAL 'expr' UNIT; all others INTERVAL 'expr UNIT'",
